@@ -15,13 +15,10 @@ DEFS = ('Definition show_node (o : option node) : string := match o with None =>
         'Definition b2s (b : bool) : string := if b then "1" else "0".\n')
 
 CLASS_TEXT = {
-    "dup-attr": "two attributes of the same macro on one impl: the example file contains the impl twice",
-    "abs-path": "#[::interthread::<macro>] is left unexpanded in the example file",
     "crate-alias": "`use interthread as it;` #[it::<macro>] is left unexpanded in the example file",
-    "glob-both": "`use interthread::*;` with both macros expanded: the first pass removes the import, the macro of the second pass is left unexpanded",
-    "late-import": "a `use interthread::<macro>` item placed after the annotated impl: the impl is left unexpanded and the import is removed",
-    "reimport": "a macro imported twice under different names: only the last import is recognised, attributes using the earlier name are left unexpanded",
 }
+# fixed defects: their witnesses are replayed as regression inputs, a recurrence is a VIOLATION
+FIXED_CLASSES = ("dup-attr", "abs-path", "glob-both", "late-import", "reimport")
 
 
 _CAP = {}
@@ -59,17 +56,25 @@ def tstr(ts, n=40):
 # part A/B: use trees through the real UseMacro
 # ---------------------------------------------------------------------------------------------------
 
-def fsu_oracle(mac, t, real_p, real_t):
-    """the specification of file_self_use (Coq fsu_post), evaluated on the REAL result"""
+def vis_leaf(mac, pl):
+    return all(x == G.INTER for x in pl[0]) and (pl[1][0] == "glob" or (pl[1][0] in ("name", "rename") and pl[1][1] == mac))
+
+
+def fsu_oracle(mac, t, real_p, real_t, cands, bits):
+    """the specification of file_self_use + update (Coq fsu_post), evaluated on the REAL result: every name bound by an
+    importing leaf is recognised afterwards and nothing else; all other leaves and the globs are kept"""
     ls = G.ut_leaves(t)
-    vis = [i for i, pl in enumerate(ls) if all(x == G.INTER for x in pl[0]) and (pl[1][0] == "glob" or (pl[1][0] in ("name", "rename") and pl[1][1] == mac))]
-    if not vis:
-        return real_p is None and real_t == t
-    last = ls[vis[-1]]
-    want = last[1][2] if last[1][0] == "rename" else mac
-    rest = sorted(G.leaf_str(pl) for i, pl in enumerate(ls) if i != vis[-1])
+    vis = [pl for pl in ls if vis_leaf(mac, pl)]
+    binds = set((pl[1][2] if pl[1][0] == "rename" else mac) for pl in vis)
+    if not vis and not (real_p is None and real_t == t):
+        return False
+    if vis and real_p not in binds:
+        return False
+    rest = sorted(G.leaf_str(pl) for pl in ls if not (vis_leaf(mac, pl) and pl[1][0] != "glob"))
     got = sorted(G.leaf_str(pl) for pl in G.ut_leaves(real_t)) if real_t is not None else []
-    return real_p == want and rest == got
+    if rest != got:
+        return False
+    return all((b == "1") == (c in binds) for c, b in zip(cands, bits))
 
 
 def use_tree_part(rep, rng):
@@ -79,6 +84,7 @@ def use_tree_part(rep, rng):
              ("group", [("path", "a", ("name", "b")), ("path", G.INTER, ("glob",)), ("name", "c")]),
              ("path", G.INTER, ("path", G.INTER, ("name", "actor"))), ("name", "actor"), ("group", []),
              ("path", G.INTER, ("group", [("name", "actor"), ("rename", "actor", "a2"), ("glob",)])),
+             ("path", G.INTER, ("group", [("rename", "actor", "act"), ("glob",), ("rename", "actor", "a2"), ("name", "family")])),
              ("path", G.INTER, ("group", [("group", [("group", [("name", "actor")])])]))]
     for t in fixed:
         for mac in ("actor", "family"):
@@ -88,13 +94,21 @@ def use_tree_part(rep, rng):
         if t[0] == "glob":
             continue
         cases.append((rng.choice(["actor", "family", "example"]), t))
-    jobs = [("fn:file_self_use", ["", mac, "use %s;" % G.ut_rust(t)]) for mac, t in cases]
+    cand_of = []
+    jobs = []
+    for mac, t in cases:
+        cs = sorted(set([mac, "act", "zz"] + [pl[1][2] for pl in G.ut_leaves(t) if pl[1][0] == "rename"]))
+        cand_of.append(cs)
+        jobs.append(("fn:file_self_use", ["", mac, "use %s;" % G.ut_rust(t)] + ["#[%s]" % c for c in cs]))
     res = hook.run_parallel(jobs, tag="c18u")
     if res is None:
         raise Infra("use-tree batch timed out")
-    items = [("u%d" % i, "show_fsu (fsu %s %s)" % (cq(mac), G.ut_coq(t))) for i, (mac, t) in enumerate(cases)]
-    vals = inst.coq_values("C18_use", IMPORTS, items)
-    rep.checker_cmds.append("coqc generated/C18_use.v (vm_compute of fsu on %d trees)" % len(cases))
+    items = []
+    for i, (mac, t) in enumerate(cases):
+        bits = " ++ ".join("b2s (is_mac (fst (update (um_new %s) %s)) (ap false [%s]))" % (cq(mac), G.ut_coq(t), cq(c)) for c in cand_of[i])
+        items.append(("u%d" % i, "(show_fsu (fsu %s %s) ++ \"|\" ++ %s)%%string" % (cq(mac), G.ut_coq(t), bits)))
+    vals = inst.coq_values("C18_use", IMPORTS, items, defs=DEFS)
+    rep.checker_cmds.append("coqc generated/C18_use.v (vm_compute of fsu / update / is_mac on %d trees)" % len(cases))
     for i, ((mac, t), (cls, f)) in enumerate(zip(cases, res)):
         rep.evaluations += 1
         c = G.tree_class(mac, t)
@@ -106,18 +120,17 @@ def use_tree_part(rep, rng):
             continue
         real_p = None if f[0] == "-" else f[0].replace(" ", "")
         real_t = None if f[1] == "-" else G.parse_use_tree([x.s for x in rs.lex(f[1])])
-        real_s = "%s|%s" % (real_p or "-", G.ut_show(real_t) if real_t is not None else "-")
+        real_s = "%s|%s|%s" % (real_p or "-", G.ut_show(real_t) if real_t is not None else "-", f[2])
         model_s = unq(vals["u%d" % i])
         same = rep.oblige(real_s == model_s)
-        ok = rep.oblige(fsu_oracle(mac, t, real_p, real_t))
+        ok = rep.oblige(fsu_oracle(mac, t, real_p, real_t, cand_of[i], f[2]))
         if i % 97 == 0:
-            rep.sample({"macro": mac, "use": G.ut_rust(t), "real file_self_use": real_s, "model": model_s})
+            rep.sample({"macro": mac, "use": G.ut_rust(t), "candidates": cand_of[i], "real file_self_use | is after update": real_s, "model": model_s})
+        inp = {"macro": mac, "use": "use %s;" % G.ut_rust(t), "candidates": cand_of[i], "observed": real_s, "model": model_s}
         if not ok:
-            viol(rep, "fsu_%d" % i, {"what": "file_self_use violates its specification (name of the last importing leaf; all other leaves kept)",
-                                         "macro": mac, "use": "use %s;" % G.ut_rust(t), "observed": real_s, "model": model_s}, found=True)
+            viol(rep, "fsu_%d" % i, dict(inp, what="file_self_use/update violate their specification (every imported name recognised afterwards; all other leaves and globs kept)"), found=True)
         elif not same:
-            viol(rep, "fsu_tie_%d" % i, {"what": "correspondence fsu model vs real file_self_use no longer checks (specification still holds on the real result)",
-                                             "macro": mac, "use": "use %s;" % G.ut_rust(t), "observed": real_s, "model": model_s}, found=False)
+            viol(rep, "fsu_tie_%d" % i, dict(inp, what="correspondence fsu model vs real file_self_use no longer checks (specification still holds on the real result)"), found=False)
 
 
 def is_part(rep, rng):
@@ -158,8 +171,8 @@ def is_part(rep, rng):
     for i, (mac, uses, lead, segs) in enumerate(cases):
         u = "[%s]" % "; ".join(G.ut_coq(t) for t in uses)
         p = "(ap %s [%s])" % ("true" if lead else "false", "; ".join(cq(x) for x in segs))
-        items.append(("i%d" % i, "(b2s (is_mac (track %s %s) %s) ++ b2s (denotes %s %s %s) ++ b2s (known_class %s %s %s) ++ b2s (well_imported %s %s))%%string" % (
-            cq(mac), u, p, cq(mac), u, p, cq(mac), u, p, cq(mac), u)))
+        items.append(("i%d" % i, "(b2s (is_mac (track %s %s) %s) ++ b2s (denotes %s %s %s) ++ b2s (alias_path %s) ++ b2s (well_imported %s %s))%%string" % (
+            cq(mac), u, p, cq(mac), u, p, p, cq(mac), u)))
     vals = inst.coq_values("C18_is", IMPORTS, items, defs=DEFS)
     rep.checker_cmds.append("coqc generated/C18_is.v")
     known = set()
@@ -175,14 +188,17 @@ def is_part(rep, rng):
         rep.oblige(py_den == m_den)
         # the property on the real code: inside the guards of C18_is_sound / C18_is_complete_guarded, is == denotes
         inp = {"macro": mac, "uses": ["use %s;" % G.ut_rust(t) for t in uses], "attribute": "#[%s%s]" % ("::" if lead else "", "::".join(segs))}
-        if m_wi and not m_known:
-            if not rep.oblige(real == py_den):
-                viol(rep, "is_%d" % i, dict(inp, what="UseMacro::is disagrees with what the path denotes", expected=py_den, observed=real), found=True)
+        if py_den and not m_known:
+            # C18_is_complete_guarded on the real code (no guard but crate-alias paths)
+            if not rep.oblige(real):
+                viol(rep, "is_%d" % i, dict(inp, what="UseMacro::is rejects a path that denotes the macro", expected=True, observed=real), found=True)
         elif m_wi and real and not py_den:
             rep.oblige(False)
             viol(rep, "is_unsound_%d" % i, dict(inp, what="UseMacro::is accepts a path that does not denote the macro", expected=False, observed=True), found=True)
-        elif m_wi and m_known and py_den and not real:
-            known.add("abs-path" if lead else ("crate-alias" if len(segs) == 2 and segs[0] != G.INTER else "reimport"))
+        elif m_known and py_den and not real:
+            known.add("crate-alias")
+        else:
+            rep.oblige(True)
         if not ok_tie and (real == py_den or not m_wi):
             viol(rep, "is_tie_%d" % i, dict(inp, what="correspondence is_mac(track ..) vs real update+is no longer checks", model=m_is, observed=real), found=False)
     return known
@@ -499,6 +515,7 @@ def witness_desc(cls):
     d = {"prelude": "", "items": items, "expand": None, "main": False, "fname": "wit_" + cls.replace("-", "_"), "knob": "witness:" + cls}
     d["text"] = G.render_file(d)
     d["classes"] = G.classify(d)
+    d["tags"] = G.input_tags(d)
     return d
 
 
@@ -527,6 +544,7 @@ def desc_load(j):
         if "tree" in it:
             it["tree"] = tup(it["tree"])
     d["classes"] = G.classify(d)
+    d["tags"] = G.input_tags(d)
     return d
 
 
@@ -535,7 +553,7 @@ def files_part(rep, rng, known_seen, ds=None):
     base = os.path.join(hook.WORK, "c18_%d" % os.getpid())
     shutil.rmtree(base, ignore_errors=True)
     if ds is None:
-        ds = [witness_desc(c) for c in sorted(CLASS_TEXT)]
+        ds = [witness_desc(c) for c in sorted(CLASS_TEXT) + list(FIXED_CLASSES)]
         for k in range(nfiles):
             ds.append(G.gen_file(rng))
     mdir = hook.manifest_dir(hook.ALL_CRATES, "all")
@@ -628,8 +646,10 @@ def files_part(rep, rng, known_seen, ds=None):
                 rep.count("interthread_use_form", u)
             for f_ in forms:
                 rep.count("attr_path_form", f_)
-            rep.nontrivial.add(("file", forms, useforms, nat, str(d["expand"]), d["main"], tuple(sorted(d["classes"]))))
-        inp = {"source": d["text"], "example_attribute": d["attr"], "layout": d["layout"], "classes": sorted(d["classes"]), "desc": desc_json(d)}
+            for t_ in sorted(d["tags"]) or ["none"]:
+                rep.count("input_tag", t_)
+            rep.nontrivial.add(("file", forms, useforms, nat, str(d["expand"]), d["main"], tuple(sorted(d["tags"]))))
+        inp = {"source": d["text"], "example_attribute": d["attr"], "layout": d["layout"], "classes": sorted(d["classes"]), "tags": sorted(d["tags"]), "desc": desc_json(d)}
         bad_ref = [a for it in d["items"] if it["kind"] == "impl" for a in it["attrs"] if a["role"].startswith("mac:") and a.get("ref_class") != "TOKENS"]
         if bad_ref:
             # the attribute macro itself rejects the (generated) configuration: outside this property
@@ -694,7 +714,7 @@ def files_part(rep, rng, known_seen, ds=None):
             continue
         fully = all(a["mac"] in G.expand_list(d) for it in d["items"] if it["kind"] == "impl" for a in it["attrs"] if a["role"].startswith("mac:"))
         no_ex = not any(a["role"] == "example" for it in d["items"] for a in it["attrs"])
-        if fully and no_ex and not wit:
+        if fully and no_ex:
             compile_pool.append((k, d, out_text))
     rep.traces += len(ds)
     if rep.tier == "thorough":
@@ -732,7 +752,11 @@ def compile_part(rep, pool):
     for k, d, text in pool:
         if rc != 0 and errs("s%d" % k):
             rep.count("compiled", "source itself does not compile (skipped)")
+            if d["knob"].startswith("witness:"):
+                rep.notes.append("source of %s does not compile: %s" % (d["knob"], errs("s%d" % k)[0][:300]))
             continue
+        if d["knob"].startswith("witness:"):
+            rep.count("compiled_witness", d["knob"][8:] + (" ok" if not (rc != 0 and errs("f%d" % k)) else " ERROR"))
         mine = errs("f%d" % k) if rc != 0 else []
         ok = rep.oblige(not mine)
         rep.count("compiled", "ok" if ok else "error")
